@@ -278,7 +278,7 @@ def check_props(pid, extra_targets=(), timeout=1800):
     res["deps"] = deps
     res["forbidden"] = scan_forbidden([os.path.join(COQ, d) for d in deps])
     deptargets = [d + "o" for d in deps if not d.startswith("Props/")] + list(extra_targets)
-    ok, log = coq_make(deptargets, timeout=timeout)
+    ok, log = coq_make(deptargets, timeout=timeout) if deptargets else (True, "")
     res["log"] = log[-6000:]
     if not ok:
         m = re.search(r'File "\./?([^"]+)", line (\d+), characters [^\n]*\n(.*?)(?:\nmake|\Z)', log, re.S)
